@@ -235,6 +235,31 @@ def _known_exclusions():
     ]
 
 
+def _validate_translator(ctx, branches):
+    """rule 7(c): for every pattern of the cascade the solver produces a member and a non-member of the translated
+    language; CPython's `re` must agree on both (a disagreement is an encoding error, exit 3)"""
+    n = bad = 0
+    s = z3.String("v")
+    for b in branches:
+        for attr, method in b.pats:
+            pat = cascade.live_pattern(attr)
+            L = rx.lang(pat, method)
+            for member in (True, False):
+                sol = z3.Solver()
+                sol.set("timeout", 10000)
+                sol.add(z3.InRe(s, rx.FULL), z3.Length(s) >= 3, z3.InRe(s, L) if member else z3.Not(z3.InRe(s, L)))
+                if str(sol.check()) != "sat":
+                    continue
+                w = rx.z3str_to_py(sol.model().eval(s, model_completion=True).as_string())
+                n += 1
+                if bool(getattr(pat, method)(w)) != member:
+                    bad += 1
+                    ctx.mismatches.append({"property": ctx.prop, "obligation": ctx.ob, "label": f"RX translator vs re on {attr}",
+                                           "witness": {"string": w, "z3_member": member}, "replay": "-", "replay_detail": "re disagrees",
+                                           "solver_detail": None})
+    ctx.validation["rx_vs_re"] = {"strings": n, "disagreements": bad}
+
+
 def _encode_cascade(ctx):
     branches, src = cascade.extract()
     ctx.encode_text("FortranContainer.__init__ (cascade order and guards)", src, "python-source")
@@ -242,6 +267,7 @@ def _encode_cascade(ctx):
         for attr, _ in b.pats:
             ctx.encode_re(attr, cascade.live_pattern(attr))
     ctx.bounds.update({"statement_length": "unbounded", "alphabet": "ASCII 9..126", "identifier_length": "unbounded"})
+    _validate_translator(ctx, branches)
     return branches
 
 
